@@ -13,7 +13,9 @@
 (***************************************************************************)
 EXTENDS BatchingOps, TLC
 
-CONSTANTS N, MaxB, MaxD, Z, Shuffle   \* Z in 1..N: state whose vector is all-zero; 0: zero vector is no state (clips to 1)
+CONSTANTS Bug,   \* "none" | "unmasked_scatter" (padded rows store their value at the aliased index) |
+                 \* "perm_as_inverse" (results un-permuted with the permutation instead of its inverse): anti-vacuity
+          N, MaxB, MaxD, Z, Shuffle   \* Z in 1..N: state whose vector is all-zero; 0: zero vector is no state (clips to 1)
 
 VARIABLES perm, L, done,        \* done[d] = batches finished on device d
           writes,               \* writes[s] = number of times state s received its new value
@@ -56,7 +58,9 @@ ProcessBatch(d) ==
                        IF s \in real
                        THEN [t \in States |-> IF carryNew[d][t] THEN "new" ELSE "old"]
                        ELSE reads[s]]
-        /\ writes' = [s \in States |-> IF s \in real THEN writes[s] + 1 ELSE writes[s]]
+        /\ writes' = [s \in States |-> IF s \in real THEN writes[s] + 1
+                                      ELSE IF Bug = "unmasked_scatter" /\ padded /\ s = ZIdx THEN writes[s] + 1
+                                      ELSE writes[s]]
         \* masked scatter: real rows store their new value; padded rows store carry[ZIdx] back,
         \* so the version held for ZIdx only changes if ZIdx itself is a real row of this batch
         /\ carryNew' = [carryNew EXCEPT ![d] = [t \in States |-> carryNew[d][t] \/ t \in real]]
@@ -71,7 +75,8 @@ Gather ==
 
 Unpermute ==     \* strip padding, then result[s] = the slot value at the position of s (argsort of perm)
   /\ phase = "gathered"
-  /\ result' = [s \in States |-> outSlots[CHOOSE j \in States : perm[j] = s]]
+  /\ result' = [s \in States |-> IF Bug = "perm_as_inverse" THEN outSlots[perm[s]]
+                                  ELSE outSlots[CHOOSE j \in States : perm[j] = s]]
   /\ phase' = "done"
   /\ UNCHANGED <<perm, L, done, writes, reads, carryNew, outSlots>>
 
